@@ -305,4 +305,140 @@ RACE = Harness(
     stubs=STUBS_COMMON,
 )
 
-HARNESSES = [H, DECO, RACE]
+# ------------------------------------------------------------------------------ J-late
+def late_params(tier):
+    return [P("is_async", 0, 1), P("nested_fn", 0, 1), P("present", 0, 1), P("optional", 0, 1)]
+
+
+@guard
+def late_fn(a, tier):
+    is_async, nested_fn, present, optional = pick(a["is_async"], 2), pick(a["nested_fn"], 2), pick(a["present"], 2), pick(a["optional"], 2)
+    ann = "'Optional[Later]'" if optional else "'Later'"
+    body = f"def f(*, r: {ann} = resource()):\n    return ('f', r)"
+    if is_async:
+        body = "async " + body
+    ns = {"resource": resource, "inject": inject, "Optional": Optional}
+    if nested_fn:
+        src = "def outer():\n" + "\n".join("    " + ln for ln in body.splitlines()) + "\n    return inject(f)\n"
+        exec(src, ns)
+        injected = ns["outer"]()
+    else:
+        exec(body, ns)
+        injected = inject(ns["f"])
+    out = {}
+
+    async def call(tag):
+        try:
+            r = injected()
+            r = await r if is_async else r
+            out[tag] = ("ok", r[1].label if isinstance(r[1], Val) else r[1])
+        except Exception as e:
+            out[tag] = ("exc", type(e).__name__)
+
+    async def main():
+        async with Context() as ctx:
+            if present:
+                ctx.add_resource(Val("the-resource"), types=[T0])
+            await call("first")  # the annotation cannot be resolved yet: a NameError is legitimate here
+            ns["Later"] = T0  # ... the class gets defined (import cycle resolved, module finished loading)
+            await call("second")
+            await call("third")
+
+    _, exc, _k = run(main)
+    summary = {"function": ("async " if is_async else "") + ("nested def" if nested_fn else "module-level def"), "annotation": ann,
+               "resource": "present" if present else "missing"}
+    if exc is not None:
+        return FAIL(f"late:raised:{type(exc).__name__}", repr(exc), summary)
+    exp = ("ok", "the-resource") if present else (("ok", None) if optional else ("exc", "ResourceNotFound"))
+    if nested_fn:
+        # a function-local forward reference is resolved through the namespace captured at decoration time,
+        # which cannot learn about names defined later: only the module-level variant is judged after the definition
+        return OK(summary, False) if out["first"][0] == "exc" else FAIL("late:unresolvable-reference-accepted", out, summary)
+    if out["first"] != ("exc", "NameError"):
+        return FAIL("late:first-call-with-unresolvable-annotation", out, summary)
+    if out["second"] != exp or out["third"] != exp:
+        return FAIL(f"late:call-after-the-reference-became-resolvable:{out['second']}", f"{out} expected {exp}", summary)
+    return OK(summary, True)
+
+
+LATE = Harness(
+    prop="C19",
+    name="J-late",
+    fn=late_fn,
+    params=late_params,
+    cube=lambda tier: 0,
+    title="a string forward reference that only becomes resolvable after a first, failing call",
+    bound_text=lambda tier: "def / async def x module-level / nested x resource present / missing x Optional or not",
+    oracle="once the name exists, calls behave exactly like the explicit lookup (value / None / ResourceNotFound); the failed first call leaves nothing behind",
+    outside="-",
+    stubs=STUBS_COMMON,
+)
+
+
+# ------------------------------------------------------------------------------ J-comp
+from .ctree import Env, NodeSpec, build_classes  # noqa: E402
+
+from asphalt.core import get_resource, start_component  # noqa: E402
+
+
+def comp_params(tier):
+    return [P("explicit", 0, 1), P("phase", 0, 1), P("order", 0, 1)] + [P(f"s{i}", 0, 3) for i in range(3 if tier == "quick" else 6)]
+
+
+@inject
+async def _needs(*, r: T0 = resource("late")):
+    return r
+
+
+@guard
+def comp_fn(a, tier):
+    S = 3 if tier == "quick" else 6
+    explicit, phase, order = pick(a["explicit"], 2), pick(a["phase"], 2), pick(a["order"], 2)
+    tape = Tape([a[f"s{i}"] for i in range(S)])
+    env = Env()
+    val = Val("published-later")
+    got = {}
+
+    def consumer(env_, nd):
+        async def go():
+            # inside prepare()/start() the current context is the component's: a non-optional lookup WAITS for a sibling
+            got["r"] = await get_resource(T0, "late") if explicit else await _needs()
+
+        return go()
+
+    cons = NodeSpec(1, 0, [("call", consumer)] if phase == 0 else [], [("call", consumer)] if phase == 1 else [])
+    prov = NodeSpec(2, 0, [("cp",), ("cp",), ("pub", "late", val, "late", [T0])], [])
+    kids = [cons, prov] if order == 0 else [prov, cons]
+    for i, k in enumerate(kids):
+        k.alias = f"k{i}{k.idx}"
+    nodes = sorted([NodeSpec(0, -1, [], [])] + kids, key=lambda n: n.idx)
+    classes = build_classes(env, nodes)
+
+    async def main():
+        async with Context():
+            await start_component(classes[0], {}, timeout=100)
+
+    _, exc, _k = run(main, chooser=tape)
+    summary = {"lookup": "explicit await get_resource()" if explicit else "injected coroutine function", "inside": ["prepare()", "start()"][phase],
+               "consumer_declared_first": order == 0, "schedule": tape.taken}
+    if exc is not None:
+        return FAIL(f"comp:{'explicit' if explicit else 'injected'}-lookup-did-not-wait-for-the-sibling:{type(exc).__name__}", repr(exc), summary)
+    if got.get("r") is not val:
+        return FAIL("comp:wrong-object", repr(got.get("r")), summary)
+    return OK(summary, True)
+
+
+COMP = Harness(
+    prop="C19",
+    name="J-comp",
+    fn=comp_fn,
+    params=comp_params,
+    cube=lambda tier: 2,
+    title="an injected coroutine called inside a component's prepare()/start() while the resource is published later by a sibling",
+    bound_text=lambda tier: f"explicit vs injected lookup x prepare/start x declaration order x first {3 if tier == 'quick' else 6} scheduling decisions arbitrary",
+    oracle="the injected call behaves like `await get_resource(T)` in the current (component) context: it waits for the sibling and gets the published object",
+    outside="-",
+    stubs=STUBS_COMMON,
+)
+
+HARNESSES = [H, DECO, RACE, LATE, COMP]
